@@ -56,6 +56,8 @@ def configs(ctx):
                 cap_ = (2 if tag == "EW3" else 4) if quick else 12
                 los = los[::-(-len(los) // cap_)]
             exts = exts_for(need, max_cells)
+            if quick and tag in ("EW3", "P8b", "P1ij"):
+                exts = exts[:1]
             # P8b: both storage orders of the tensor that is looked up with two coordinates
             ros = [None] if tag != "P8b" else [None, {"B": ["K", "J", "N"]}]
             for lo in [None] + los:
@@ -100,7 +102,7 @@ def configs(ctx):
         # (c) flattening of rank tuples of one tensor, optionally + occupancy of the flattened rank
         for t in decl:
             tr = decl[t]
-            tuples = [p for n in (2, 3) for p in itertools.permutations(tr, n)]
+            tuples = [p for n in ((2,) if (quick and tag == "EW3") else (2, 3)) for p in itertools.permutations(tr, n)]
             for tup in tuples:
                 flat = "".join(tup)
                 others = [[x] for x in ranks if x not in tup]
@@ -126,6 +128,14 @@ def configs(ctx):
                     add({x: ["uniform_shape(2)"], key: ["flatten()"]}, [[x + "1", flat]] + others, [x, y], "lvlflat:%s@%s" % (flat, t))
                     add({x: ["uniform_shape(2)"], key: ["flatten()"], flat: [occ(t, 2)]},
                         [[x + "1", flat + "1", flat + "0"]] + others, [x, y], "lvlflat+occ:%s@%s" % (flat, t))
+    # identical (Einsum, mapping, sizes) generated through different tensors: keep one
+    seen, uniq = set(), []
+    for w in work:
+        k = B.spec_key(w["spec"], sizes=w.get("sizes"))
+        if k not in seen:
+            seen.add(k)
+            uniq.append(w)
+    work = uniq
     # (e) the accelerator mappings (architecture stripped, sizes from the menu)
     decl = {"A": ["K", "M"], "B": ["K", "N"], "Z": ["M", "N"]}
     expr = dict(U.templates("quick"))["P1"]
